@@ -4,7 +4,7 @@ from pv import obs_effects as E
 
 
 def run(report):
-    add_obs(report, lambda: E.frame_obligations('C18', E.ENTRIES, E.PRUNE))
+    add_obs(report, lambda: E.frame_obligations('C18', E.ENTRIES, E.PRUNE, interpreter_globals=True))
     report.assume("M-NI: calls whose write frames are per-call objects and whose shared reads are of state nobody writes "
                   "commute under any interleaving (standard non-interference argument over the discharged frame "
                   "obligations; not machine-checked)",
